@@ -477,6 +477,12 @@ fn msg_matches(e: &Message, o: &Message) -> bool {
     if e.kind() != o.kind() {
         return false;
     }
+    // A query the model could not observe the serial of (started and overtaken within one step).
+    if let (Message::QueryIntrospection(eq), Message::QueryIntrospection(oq)) = (e, o) {
+        if eq.serial >= u32::MAX - 1000 {
+            return eq.type_id == oq.type_id;
+        }
+    }
     match (e.value(), o.value()) {
         (None, None) => e == o,
         (Some(ev), Some(ov)) => {
